@@ -158,10 +158,21 @@ def inherit_instance(tier, seed=0):
     ops.append({"op": "set_ref", "s": ["B"], "n": "o", "v": ["sp", ["B"], [], ""], "mode": "absolute", "via": "set_ref"})
     ops.append({"op": "new_cells", "s": ["C"], "c": "o", "rec": {"f": "X2", "cached": True, "an": 0}})
     ops.append({"op": "del_ref", "s": ["A"], "n": "o"})
+    # the space tree itself changes: deletion (with deriving subs and references into the
+    # deleted space), creation with bases, and a defined cells renamed under its derivers
+    structural = [{"op": "del_space", "p": ["A"]}, {"op": "del_space", "p": ["B"]}, {"op": "del_space", "p": ["D"]},
+                  {"op": "new_space", "p": ["E"], "bases": [["A"]]},
+                  {"op": "new_space", "p": ["E"], "bases": [["B"], ["A"]]},
+                  {"op": "new_space", "p": ["A", "x"], "bases": []},
+                  {"op": "rename_cells", "s": ["A"], "c": "x", "c2": "z"},
+                  {"op": "rename_cells", "s": ["A"], "c": "x", "c2": "r"}]
     if tier == "quick":
         rng.shuffle(ops)
-        keep = [o for o in ops if o["op"] in ("add_bases",)][:8] + [o for o in ops if o["op"] != "add_bases" and o["op"] != "remove_bases"][:18] + [o for o in ops if o["op"] == "remove_bases"][:4]
+        rng.shuffle(structural)
+        keep = [o for o in ops if o["op"] in ("add_bases",)][:8] + [o for o in ops if o["op"] != "add_bases" and o["op"] != "remove_bases"][:16] + [o for o in ops if o["op"] == "remove_bases"][:4] + structural[:4]
         ops = keep
+    else:
+        ops = ops + structural
     return {"inits": inits, "ops": ops}
 
 
